@@ -95,7 +95,65 @@ impl AtomicU8 {
     #[verifier::external_body]
     pub fn store(&mut self, val: u8, o: Ordering) ensures final(self).v == val { unimplemented!() }
     #[verifier::external_body]
+    pub fn fetch_add(&mut self, val: u8, o: Ordering) -> (r: u8)
+        ensures r == old(self).v, final(self).v == (if old(self).v + val <= u8::MAX { old(self).v + val } else { old(self).v + val - 0x100 }) as u8
+    { unimplemented!() }
+    #[verifier::external_body]
+    pub fn fetch_sub(&mut self, val: u8, o: Ordering) -> (r: u8)
+        ensures r == old(self).v, final(self).v == (if old(self).v >= val { old(self).v - val } else { old(self).v - val + 0x100 }) as u8
+    { unimplemented!() }
+    #[verifier::external_body]
     pub fn compare_exchange(&mut self, current: u8, new: u8, s: Ordering, f: Ordering) -> (r: Result<u8, u8>)
+        ensures match r {
+            Ok(x) => x == current && old(self).v == current && final(self).v == new,
+            Err(x) => x == old(self).v && x != current && final(self).v == old(self).v,
+        }
+    { unimplemented!() }
+}
+
+pub struct AtomicU16 { pub v: u16 }
+impl AtomicU16 {
+    #[verifier::external_body]
+    pub fn new(v: u16) -> (r: Self) ensures r.v == v { unimplemented!() }
+    #[verifier::external_body]
+    pub fn load(&self, o: Ordering) -> (r: u16) ensures r == self.v { unimplemented!() }
+    #[verifier::external_body]
+    pub fn store(&mut self, val: u16, o: Ordering) ensures final(self).v == val { unimplemented!() }
+    #[verifier::external_body]
+    pub fn fetch_add(&mut self, val: u16, o: Ordering) -> (r: u16)
+        ensures r == old(self).v, final(self).v == (if old(self).v + val <= u16::MAX { old(self).v + val } else { old(self).v + val - 0x1_0000 }) as u16
+    { unimplemented!() }
+    #[verifier::external_body]
+    pub fn fetch_sub(&mut self, val: u16, o: Ordering) -> (r: u16)
+        ensures r == old(self).v, final(self).v == (if old(self).v >= val { old(self).v - val } else { old(self).v - val + 0x1_0000 }) as u16
+    { unimplemented!() }
+    #[verifier::external_body]
+    pub fn compare_exchange(&mut self, current: u16, new: u16, s: Ordering, f: Ordering) -> (r: Result<u16, u16>)
+        ensures match r {
+            Ok(x) => x == current && old(self).v == current && final(self).v == new,
+            Err(x) => x == old(self).v && x != current && final(self).v == old(self).v,
+        }
+    { unimplemented!() }
+}
+
+pub struct AtomicU32 { pub v: u32 }
+impl AtomicU32 {
+    #[verifier::external_body]
+    pub fn new(v: u32) -> (r: Self) ensures r.v == v { unimplemented!() }
+    #[verifier::external_body]
+    pub fn load(&self, o: Ordering) -> (r: u32) ensures r == self.v { unimplemented!() }
+    #[verifier::external_body]
+    pub fn store(&mut self, val: u32, o: Ordering) ensures final(self).v == val { unimplemented!() }
+    #[verifier::external_body]
+    pub fn fetch_add(&mut self, val: u32, o: Ordering) -> (r: u32)
+        ensures r == old(self).v, final(self).v == (if old(self).v + val <= u32::MAX { old(self).v + val } else { old(self).v + val - 0x1_0000_0000 }) as u32
+    { unimplemented!() }
+    #[verifier::external_body]
+    pub fn fetch_sub(&mut self, val: u32, o: Ordering) -> (r: u32)
+        ensures r == old(self).v, final(self).v == (if old(self).v >= val { old(self).v - val } else { old(self).v - val + 0x1_0000_0000 }) as u32
+    { unimplemented!() }
+    #[verifier::external_body]
+    pub fn compare_exchange(&mut self, current: u32, new: u32, s: Ordering, f: Ordering) -> (r: Result<u32, u32>)
         ensures match r {
             Ok(x) => x == current && old(self).v == current && final(self).v == new,
             Err(x) => x == old(self).v && x != current && final(self).v == old(self).v,
